@@ -111,3 +111,32 @@ package cli
 //@       ((implements(arg.Value, "values.DefaultValued") && valueIsDefault(arg.Value, t0)) ? "" :
 //@        valueString(arg.Value, implements(arg.Value, "values.DefaultValued") ? t0 + 1 : t0))
 //@   panics invalid: isType(panicval, "string")
+
+// --- command initialisation (C16, C08, C17) -----------------------------------------------------------------------------------
+// A CmdInitializer is user code that declares options, arguments, sub-commands, Spec, Action ... through the public API.
+// It is modelled as an arbitrary change of the command-layer heap that re-establishes the invariant cmdWF.
+//@ mutator field Cmd.init : H_cli_Cmd_*, MD_Str_Int, MV_Str_Int, B_*, H_container_Container_*
+//@ pure func cmdWF(c *Cmd, OPTS array[*Cmd][]*container.Container, ARGS array[*Cmd][]*container.Container, SUBS array[*Cmd][]*Cmd, OI array[*Cmd]map[string]*container.Container, AI array[*Cmd]map[string]*container.Container) bool =
+//@     OI[c] != nil && AI[c] != nil &&
+//@     (forall i int :: 0 <= i && i < len(OPTS[c]) ==> OPTS[c][i] != nil) &&
+//@     (forall i int :: 0 <= i && i < len(ARGS[c]) ==> ARGS[c][i] != nil) &&
+//@     (forall i int :: 0 <= i && i < len(SUBS[c]) ==> SUBS[c][i] != nil)
+//@ func callback:Cmd.init(cmd)
+//@   ensures wf: cmdWF(cmd, fieldHeap(cmd.options), fieldHeap(cmd.args), fieldHeap(cmd.commands), fieldHeap(cmd.optionsIdx), fieldHeap(cmd.argsIdx))
+
+// argNames: "ARG1 ARG2 ... " in declaration order
+//@ pure rec func argNames(args []*container.Container, n int, NAME array[*container.Container]string) string =
+//@     n <= 0 ? "" : (argNames(args, n-1, NAME) + NAME[args[n-1]]) + " "
+
+//@ func (*Cmd).doInit
+//@   requires recv: c != nil
+//@   requires wf: cmdWF(c, fieldHeap(c.options), fieldHeap(c.args), fieldHeap(c.commands), fieldHeap(c.optionsIdx), fieldHeap(c.argsIdx))
+//@   ensures synthesised: old(c.init) == nil && old(c.Spec) == "" ==>
+//@       c.Spec == (len(c.options) > 0 ? "[OPTIONS] " : "") + argNames(c.args, len(c.args), fieldHeap(c.args[0].Name))
+//@   ensures explicit-kept: old(c.init) == nil && old(c.Spec) != "" ==> c.Spec == old(c.Spec)
+//@   ensures error: result != nil ==> isType(result, "*lexer.ParseError") && asType(result, "*lexer.ParseError").Input == c.Spec &&
+//@       0 <= asType(result, "*lexer.ParseError").Pos && asType(result, "*lexer.ParseError").Pos <= len(c.Spec)
+//@   ensures compiled: result == nil ==> c.fsm != nil
+//@   maypanic
+//@   loop 2 invariant spec: c.Spec == (len(c.options) > 0 ? "[OPTIONS] " : "") + argNames(c.args, $k, fieldHeap(c.args[0].Name))
+//@   loop 2 invariant frame: old(c.init) == nil ==> frame(c.Spec)
